@@ -114,3 +114,66 @@ def roundtrip_lemma():
     w, B, T = z3.Ints("rt_w rt_B rt_T")
     s, e, n = c_slice.py_adjust(w, SInt(B), SInt(T + 1), 1)
     return [w >= 1, 0 <= B, B <= T, T < w], z3.And(zint(s) == B, zint(n) == T - B + 1)
+
+
+class ImportTargetCallee(Contract):
+    key = KEY
+    pure = False
+    raises = (RuntimeError, ValueError)
+    returns = "ref"
+    result_classes = (Signal, Slice, Concat)
+
+    def scenarios(self, eng):
+        return []
+
+    def frame(self, eng, st, a):
+        for f in ("_slices", "_concats"):
+            if f in st.heap.schema:
+                st.heap.havoc_field(f)
+
+    def make_result(self, eng, st, a):
+        r = fresh("imported", Ref)
+        st.assume(z3.And(r != NULL, st.heap.get("$alive", r)))
+        st.assume(z3.Or([st.heap.get("$cls", r) == st.classid(k) for k in (Signal, Slice, Concat)]))
+        return SRef(r, (Signal, Slice, Concat))
+
+
+def import_concat_obligations():
+    """import_concat(pconc, module): the imported concatenation's parts are the imports of the VLSIR parts in REVERSE
+    order (VLSIR is most-significant first) - records of 1 to 4 parts (arity unrolled, parts symbolic)."""
+    from pyvc import loader
+    key = "hdl21.proto.importing:import_concat"
+    ext = loader.extract(key)
+    info = {"sha": ext.sha, "lines": ext.lines, "path": ext.path, "paths": 0, "scenarios": 0, "unsupported": []}
+    obs = []
+    for arity in (1, 2, 3, 4):
+        schema = dict(SCHEMA_EXTRA)
+        schema["Concat.parts"] = "py"
+        eng = mk_engine(contracts=[ImportTargetCallee()], schema_extra=schema, field_classes=FIELD_CLASSES,
+                        inline={"hdl21.concat:Concat.__init__", "hdl21.concatable:is_concatable"})
+        st = eng.new_state()
+        pc = sym_ref(st, "pconc", (vckt.Concat,))
+        module = sym_ref(st, "module", (Module,))
+        pparts = tuple(sym_ref(st, f"ppart{k}", (vckt.ConnectionTarget,)) for k in range(arity))
+        eng.write_field(st, pc, "parts", pparts)
+        eng.cuts = []
+        try:
+            outs = eng.run(ext, st, {"pconc": pc, "module": module})
+        except Unsupported as e:
+            info["unsupported"].append(f"arity {arity}: {e}")
+            continue
+        info["scenarios"] += 1
+        for pi, (kind, s2, v) in enumerate(outs):
+            info["paths"] += 1
+            if kind != "ret":
+                continue
+            calls = [c for c in s2.calls if c[0] == KEY]
+            ok = len(calls) == arity and all(isinstance(calls[j][1].pconn, SRef) and
+                                             calls[j][1].pconn.z.eq(pparts[arity - 1 - j].z) for j in range(arity))
+            goal = z3.BoolVal(False)
+            if ok and isinstance(v, SRef):
+                got = eng.read_field(s2, v, "parts")[0][1]
+                goal = z3.BoolVal(isinstance(got, tuple) and len(got) == arity and all(isinstance(g, SRef) for g in got))
+            obs.append(Obligation(f"{key}/arity{arity}/p{pi}/post.parts-in-reverse-order", "post", list(s2.pc), goal, key,
+                                  f"arity{arity}", pi, {"trace": list(s2.trace), "havoc": list(s2.ghost.get("havoc", ()))}))
+    return key, obs, info
